@@ -61,6 +61,11 @@ pub trait Walker: Visitor {
         self.visit_statement(stmt);
         match stmt {
             Statement::Let(def) => {
+                // A constraint is an expression like any other, with
+                // imports that have to be rewritten too.
+                if let Some(ref mut constraint) = def.constraint {
+                    self.walk_expression(constraint);
+                }
                 self.walk_expression(&mut def.value);
             }
             Statement::Constraint(def) => {
@@ -80,7 +85,10 @@ pub trait Walker: Visitor {
     }
 
     fn walk_fieldset(&mut self, fs: &mut FieldList) {
-        for (_, _constraint, expr) in fs.iter_mut() {
+        for (_, constraint, expr) in fs.iter_mut() {
+            if let Some(constraint) = constraint {
+                self.walk_expression(constraint);
+            }
             self.walk_expression(expr);
         }
     }
@@ -133,7 +141,14 @@ pub trait Walker: Visitor {
             Expression::Grouped(expr, _) => {
                 self.walk_expression(expr);
             }
-            Expression::Func(def) => self.walk_expression(def.fields.as_mut()),
+            Expression::Func(def) => {
+                for (_, constraint) in def.argdefs.iter_mut() {
+                    if let Some(constraint) = constraint {
+                        self.walk_expression(constraint);
+                    }
+                }
+                self.walk_expression(def.fields.as_mut())
+            }
             Expression::Module(def) => {
                 self.walk_fieldset(&mut def.arg_set);
                 for stmt in def.statements.iter_mut() {
@@ -141,6 +156,9 @@ pub trait Walker: Visitor {
                 }
                 if let Some(ref mut expr) = def.out_expr {
                     self.walk_expression(expr.as_mut());
+                }
+                if let Some(ref mut constraint) = def.out_constraint {
+                    self.walk_expression(constraint.as_mut());
                 }
             }
             Expression::Range(def) => {
